@@ -23,6 +23,7 @@ func init() {
 			r.borrow("C08", func() { ruleD1(r) })    // a late reply for a requester that gave up must not wedge the request router
 			r.borrow("C11", func() { ruleC11M7(r) }) // a rejected frame must not stay in the pooled buffer and be parsed in front of the next one
 			ruleC12D7(r)
+			ruleNoHoles(r, "D8", "/encoding", "/message")
 			ruleNoSwallowedErrors(r, "D6", 10, true, "/encoding", "/encoding/json", "/encoding/protobuf", "/encoding/convert")
 			if pk := r.P.ByPath[modPath+"/encoding/convert"]; pk != nil {
 				ruleC11M12(r, pk)
@@ -396,5 +397,102 @@ func ruleC12D7(r *Run) {
 	}
 	if n == 0 {
 		r.Undecided("sends on closed-by-someone channels", "none found")
+	}
+}
+
+// ruleNoHoles: a slice of pointers (or of other nil-able elements) that is created with its final length and then filled
+// by index inside a loop has a nil element wherever an iteration skips the store. Downstream code — re-encoding, the
+// application — dereferences the elements of a decoded message without a test. In the decoding packages, the store
+// into such a slice dominates every way back to the loop head (no `continue` around it).
+func ruleNoHoles(r *Run, id string, pkgs ...string) {
+	r.Begin(id, "decoded collections have no holes: where a slice of nil-able elements is made with a non-zero length and filled by index in a loop, no iteration gets back to the loop head without storing its element", 0)
+	p := r.P
+	n := 0
+	for _, fn := range p.Funcs {
+		okPkg := false
+		for _, pk := range pkgs {
+			if strings.HasPrefix(fnPkgPath(fn), modPath+pk) {
+				okPkg = true
+			}
+		}
+		if !okPkg || fn.Blocks == nil {
+			continue
+		}
+		k := 0
+		allInstrs(fn, func(ins ssa.Instruction) {
+			mk, ok := ins.(*ssa.MakeSlice)
+			if !ok {
+				return
+			}
+			if c, isK := mk.Len.(*ssa.Const); isK {
+				if v, _ := constInt(c); v == 0 {
+					return
+				}
+			}
+			switch mk.Type().Underlying().(*types.Slice).Elem().Underlying().(type) {
+			case *types.Pointer, *types.Interface, *types.Slice, *types.Map:
+			default:
+				return
+			}
+			if mk.Referrers() == nil {
+				return
+			}
+			for _, ref := range *mk.Referrers() {
+				ia, isIA := ref.(*ssa.IndexAddr)
+				if !isIA || ia.Referrers() == nil {
+					continue
+				}
+				if _, isK := ia.Index.(*ssa.Const); isK {
+					continue
+				}
+				for _, r2 := range *ia.Referrers() {
+					st, isSt := r2.(*ssa.Store)
+					if !isSt || st.Addr != ssa.Value(ia) {
+						continue
+					}
+					loop := loopBlocks(st.Block())
+					if len(loop) == 0 {
+						continue
+					}
+					// the innermost loop head: a block of the loop that dominates the store block and has a predecessor
+					// inside the loop
+					var head *ssa.BasicBlock
+					for b := range loop {
+						if !b.Dominates(st.Block()) {
+							continue
+						}
+						back := false
+						for _, pr := range b.Preds {
+							if loop[pr] && b.Dominates(pr) {
+								back = true
+							}
+						}
+						if back && (head == nil || head.Dominates(b)) {
+							head = b
+						}
+					}
+					if head == nil {
+						continue
+					}
+					n++
+					k++
+					var skip *ssa.BasicBlock
+					for _, pr := range head.Preds {
+						if head.Dominates(pr) && pr != head && !st.Block().Dominates(pr) {
+							skip = pr
+						}
+					}
+					where := posOf(p, st)
+					if skip != nil && len(skip.Instrs) > 0 {
+						where = posOf(p, skip.Instrs[len(skip.Instrs)-1])
+					}
+					r.Check(fmt.Sprintf("%s fill#%d", fnName(fn), k), skip == nil, where, fnName(fn), "an iteration can return to the loop head without storing its element: the slice was made with its final length, so the skipped slot stays nil inside a message that is handed on as valid")
+				}
+			}
+		})
+	}
+	r.Stat("index_filled_slices", n)
+	if n == 0 {
+		r.Check("index-filled slices", true, "", "", "no slice of nil-able elements is made with a length and filled by index in a loop")
 	}
 }
